@@ -225,6 +225,7 @@ type incarnation struct {
 	dead     bool
 	snapPos  int // position of the pool cache in the pool event log when the running reconcile listed it
 	passID   int // sequence number of the running reconcile pass
+	passFailed bool // some API write of the running pass has returned an error
 	poolInf  *informer
 	blockInf *informer
 }
@@ -263,6 +264,7 @@ func (inc *incarnation) onPoolList() {
 	inc.snapPos = inc.poolInf.pos
 	h.passSeq++
 	inc.passID = h.passSeq
+	inc.passFailed = false
 	lag := len(h.api.poolLog) - inc.poolInf.pos
 	if inc.dead || inc != h.inc {
 		h.r.Logf("ctl#%d: reconcile starts (defunct incarnation)", inc.id)
@@ -322,10 +324,12 @@ func (inc *incarnation) react(a k8stesting.Action) (bool, runtime.Object, error)
 	}
 	switch f {
 	case 1:
+		inc.passFailed = true
 		h.r.Fault("api_conflict_injected")
 		h.r.Logf("ctl#%d: %s(%s) -> injected conflict", inc.id, what, obj.Name)
 		return true, nil, apierrors.NewConflict(poolGR, obj.Name, fmt.Errorf("injected"))
 	case 2:
+		inc.passFailed = true
 		h.r.Fault("api_error_before_effect")
 		h.r.Logf("ctl#%d: %s(%s) -> injected server error, no effect", inc.id, what, obj.Name)
 		return true, nil, apierrors.NewInternalError(fmt.Errorf("injected"))
@@ -334,11 +338,13 @@ func (inc *incarnation) react(a k8stesting.Action) (bool, runtime.Object, error)
 	res, err := h.api.controllerWrite(inc, sub, what, obj)
 	h.api.curPass = 0
 	if err == nil && f == 3 {
+		inc.passFailed = true
 		h.r.Fault("api_commit_then_error")
 		h.r.Logf("ctl#%d: %s(%s) committed but the reply was lost", inc.id, what, obj.Name)
 		return true, nil, apierrors.NewTimeoutError("injected: reply lost", 1)
 	}
 	if err != nil {
+		inc.passFailed = true
 		return true, nil, err
 	}
 	return true, res, nil
